@@ -80,7 +80,8 @@ func (bc *BatchContext) IsBatchReady() error {
 	}
 
 	unavailableToleration := allowedUnavailable(bc.FailureThreshold, bc.UpdatedReplicas)
-	if unavailableToleration+bc.UpdatedReadyReplicas < bc.DesiredUpdatedReplicas {
+	// add in 64 bits: a large integer failureThreshold must not wrap the sum
+	if int64(unavailableToleration)+int64(bc.UpdatedReadyReplicas) < int64(bc.DesiredUpdatedReplicas) {
 		return fmt.Errorf("current batch not ready: updated ready replicas not satisfied, allowedUnavailable + UpdatedReadyReplicas %d < DesiredUpdatedReplicas %d", unavailableToleration+bc.UpdatedReadyReplicas, bc.DesiredUpdatedReplicas)
 	}
 
